@@ -11,3 +11,5 @@ def run(ctx, res):
     fn = getattr(structural, "C13".lower(), None)
     if fn is not None:
         fn(ctx, res)
+    # growth, reserve and shrink are the crate's own relocation: hashbrown must never move buckets itself (the list would not follow)
+    structural.no_bucket_relocation(ctx, res, "C13")
